@@ -112,6 +112,25 @@ def run_hpc(scn, seed, debug=False, keep=False):
     return tr
 
 
+def run_first_round(scn, seed, debug=False):
+    """submit-jobs alone: the first submitter round (no batch starts). For dry runs this is the whole run."""
+    r = Run(scn, seed, debug=debug)
+    try:
+        p = r.submit()
+        n = 0
+        while p.alive and n < 5000:
+            r.w.do(("step", p.pid))
+            n += 1
+        r.w.ev(e="end", recoveries=0, full=False)
+    finally:
+        tr = r.finish()
+    return tr
+
+
+def first_round_batches(tr):
+    return [e["jobs"] for e in sorted((e for e in tr["ev"] if e["e"] == "cfgbatch"), key=lambda e: e["b"])]
+
+
 if __name__ == "__main__":
     import argparse
     ap = argparse.ArgumentParser()
